@@ -80,6 +80,7 @@ def namings(draw, spec):
     ph = [i for i in live if spec["nodes"][i]["op"] == "placeholder"]
     data = [i for i in live if spec["nodes"][i]["op"] == "data"]
     mode = draw(st.sampled_from(["adv"] * 7 + ["clash", "reserved", "outin"]))
+    extra = None
     pool = list(POOL)
     used: list[str] = []
 
@@ -131,6 +132,12 @@ def namings(draw, spec):
                 inn[b[1]] = src
             else:
                 dn[b[1]] = ["Named", src]
+        elif ph:
+            # only one named input: add a second, different placeholder of
+            # the same name feeding an extra output
+            i = ph[0]
+            extra = {"name": inn.get(str(i), spec["nodes"][i]["p"]["name"]),
+                     "shape": [7], "dtype": "float64"}
     if mode == "reserved":
         r = draw(st.sampled_from(RESERVED))
         tgt = draw(st.sampled_from(["in", "out", "data"]))
@@ -163,7 +170,10 @@ def namings(draw, spec):
         elif k == 4:
             tags[str(i)] = [["ImplSubstitution"], ["PrefixNamed", draw(
                 st.sampled_from(["_pt_subst", "x", "pt_temp"]))]]
-    return {"in": inn, "data": dn, "out": outn, "tags": tags, "mode": mode}
+    res = {"in": inn, "data": dn, "out": outn, "tags": tags, "mode": mode}
+    if extra is not None:
+        res["extra_clash"] = extra
+    return res
 
 
 def renamed(spec, naming):
@@ -183,6 +193,17 @@ def renamed(spec, naming):
     s["outputs"] = outs
     for i, ts in naming["tags"].items():
         s["nodes"][int(i)]["tags"] = ts
+    ex = naming.get("extra_clash")
+    if ex is not None:
+        n = 1
+        for d in ex["shape"]:
+            n *= d
+        s["nodes"].append({"op": "placeholder", "p": {
+            "name": ex["name"], "shape": ex["shape"], "dtype": ex["dtype"],
+            "scale": 0, "values": [1] * n}})
+        s["nodes"].append({"op": "add", "args": [["n", len(s["nodes"]) - 1],
+                                                  ["py", 1]]})
+        s["outputs"].append(["clash_out", len(s["nodes"]) - 1])
     return s
 
 # }}}
@@ -443,8 +464,15 @@ def variant_oracle(spec_r, plain_ok, *, mode="adv"):
     if f is not None:
         return f, info
     # values
-    env = {k: v for k, v in input_values(spec_r).items()
-           if k in knl.kernel.arg_dict}
+    # values by the input objects that are in the graph (two placeholder
+    # nodes of the program may share a name while only one is reachable)
+    from pvf.ptbuild import np_input
+    live_inputs = _inputs_of(outs)
+    env = {}
+    for i, n in enumerate(spec_r["nodes"]):
+        if n["op"] == "placeholder" and n["p"]["name"] in knl.kernel.arg_dict \
+                and any(prog.nodes[i] == x for x in live_inputs):
+            env[n["p"]["name"]] = np_input(n).a
     before = {n: np.array(v, copy=True)
               for n, v in knl.bp.bound_arguments.items()}
     try:
